@@ -5214,6 +5214,8 @@ func (t *Terminal) Loop() error {
 						// Need to resize header window
 						req(reqFullRedraw)
 					} else {
+						// The lines of the list move with the number of header lines
+						t.forceRerenderList()
 						req(reqHeader, reqList, reqPrompt, reqInfo)
 					}
 				} else {
@@ -5637,12 +5639,15 @@ func (t *Terminal) Loop() error {
 				req(reqInfo)
 			case actShowHeader:
 				t.headerVisible = true
+				t.forceRerenderList()
 				req(reqList, reqInfo, reqPrompt, reqHeader)
 			case actHideHeader:
 				t.headerVisible = false
+				t.forceRerenderList()
 				req(reqList, reqInfo, reqPrompt, reqHeader)
 			case actToggleHeader:
 				t.headerVisible = !t.headerVisible
+				t.forceRerenderList()
 				req(reqList, reqInfo, reqPrompt, reqHeader)
 			case actToggleWrap:
 				t.wrap = !t.wrap
